@@ -24,10 +24,13 @@ RULE = ("case = control script (wind depth <= 4, <= 3 captured continuations eac
         "all scripts up to 3 nodes over the core alphabet are enumerated, larger ones drawn by Hypothesis; non-trivial iff the "
         "reference run performs >= 1 continuation invocation or raise that crosses >= 1 dynamic-wind frame (escape or re-entry); "
         "distinct by script digest")
-ASSUMPTIONS = ["scripts live inside one top-level expression (R7RS leaves the continuation of a top-level command open)",
+ASSUMPTIONS = ["an after thunk runs with the extent already left and a before thunk with it not yet entered (the reference implementation of "
+               "dynamic-wind); thunks raise or jump only on the normal path (body just returned / first entry by call) - jumps out of a "
+               "thunk that a travelling continuation is running are unspecified in R7RS and are not generated",
+               "scripts live inside one top-level expression (R7RS leaves the continuation of a top-level command open)",
                "payloads of secondary exceptions (handler returned from raise) are compared only as 'non-symbol'"]
 
-HEADER = """(let ((trace '()) (k1 #f) (k2 #f) (k3 #f) (n1 0) (n2 0) (n3 0)
+HEADER = """(let ((trace '()) (k1 #f) (k2 #f) (k3 #f) (n1 0) (n2 0) (n3 0) (nw 0)
       (p1 (make-parameter 'p1-init))
       (p2 (make-parameter 0 (lambda (x) (list 'conv x)))))
   (define (log! x) (set! trace (cons x trace)))
@@ -58,7 +61,27 @@ class ScriptGen(object):
         self.uid += 1
         u = self.uid
         if kind == "wind" and wdepth < 4:
-            return "(dynamic-wind (lambda () (log! 'in%d)) (lambda () %s) (lambda () (log! 'out%d)))" % (u, self.node(depth - 1, wdepth + 1), u)
+            # before / after thunks that themselves raise or jump (at most three times per script), but only on the normal
+            # path: the after thunk when the body has just returned normally, the before thunk on the first (call) entry.
+            # By the wind model the extent has then already been left / is not yet entered.  Thunks that jump while a
+            # continuation is travelling through them are left out: R7RS calls that unspecified (see DESIGN.md 14).
+            mode = ch.pick(["plain", "plain", "plain", "after-raise", "after-invoke", "before-raise"])
+            body = self.node(depth - 1, wdepth + 1)
+            if mode == "plain":
+                return "(dynamic-wind (lambda () (log! 'in%d)) (lambda () %s) (lambda () (log! 'out%d)))" % (u, body, u)
+            self.tags.add("wind-" + mode)
+            if mode == "before-raise":
+                return ("(let ((first #t)) (dynamic-wind (lambda () (log! 'in%d) (if (and first (< nw 3)) (begin (set! first #f) (set! nw (+ nw 1)) (raise 'r1)) (set! first #f))) "
+                        "(lambda () %s) (lambda () (log! 'out%d))))" % (u, body, u))
+            if mode == "after-raise":
+                jump = "(raise 'r2)"
+                cond = "(and done (< nw 3))"
+            else:
+                c = 1 + ch.n(3)
+                jump = "(k%d 'from-after%d)" % (c, u)
+                cond = "(and done k%d (< nw 3))" % c
+            return ("(let ((done #f)) (dynamic-wind (lambda () (set! done #f) (log! 'in%d)) (lambda () (let ((v %s)) (set! done #t) v)) "
+                    "(lambda () (log! 'out%d) (if %s (begin (set! done #f) (set! nw (+ nw 1)) %s) 'quiet))))" % (u, body, u, cond, jump))
         if kind == "capture":
             c = 1 + ch.n(3)
             return "(begin (log! (list 'got%d (call/cc (lambda (k) (set! k%d k) %s)))) 'c%d)" % (u, c, self.node(depth - 1, wdepth), u)
@@ -133,11 +156,15 @@ def enum_scripts():
     def guard_none(b):
         return "(guard (e ((eq? e 'never) 'never)) %s)" % b
 
+    def wind_ar(b):
+        return ("(let ((done #f)) (dynamic-wind (lambda () (set! done #f) (log! 'in3)) (lambda () (let ((v %s)) (set! done #t) v)) "
+                "(lambda () (log! 'out3) (if (and done (< nw 2)) (begin (set! done #f) (set! nw (+ nw 1)) (raise 'r2)) 'quiet))))" % b)
+
     def par(b):
         return "(parameterize ((p2 'pv)) %s)" % b
 
     atoms = [leaf, inv(1), "(raise 'r1)", "(begin (log! (list 'rc (raise-continuable 'r1))) 'arc)", "(begin (log! (list 'show (p1) (p2))) 's)"]
-    wrappers = [lambda b: wind(b, 1), lambda b: wind(b, 2), lambda b: cap(b, 1), hret, guard_all, guard_none, par]
+    wrappers = [lambda b: wind(b, 1), lambda b: wind(b, 2), lambda b: cap(b, 1), hret, guard_all, guard_none, par, wind_ar]
     level1 = atoms
     level2 = [w(a) for w in wrappers for a in level1]
     level3 = [w(a) for w in wrappers for a in level2]
